@@ -174,11 +174,15 @@ def segWrite (c : Cfg) (sg : SegSt) (w : WS) (rate : Nat) : SegSt :=
       { sg with flushed := sg.flushed ++ [p], cur := some (addToPart ⟨w.dts, 0, [], []⟩ w base) }
     else { sg with cur := some (addToPart p w base) }
 
+def segParts (sg : SegSt) : List PartSt :=
+  match sg.cur with
+  | some p => sg.flushed ++ [p]
+  | none => sg.flushed
+
 /-- formatFMP4Segment.close: flush the current part, write the duration; a file exists iff a part was written -/
 def segClose (sg : SegSt) : Option FileSt :=
-  let parts := match sg.cur with | some p => sg.flushed ++ [p] | none => sg.flushed
-  if parts.isEmpty then none
-  else some ⟨sg.number, sg.startDTS, sg.startNTP, ((sg.endDTS - sg.startDTS) / 1000000) % u32, parts⟩
+  if (segParts sg).isEmpty then none
+  else some ⟨sg.number, sg.startDTS, sg.startNTP, ((sg.endDTS - sg.startDTS) / 1000000) % u32, segParts sg⟩
 
 /-- what is on disk for an open segment (crash at a write boundary): the flushed parts, header duration 0 -/
 def segCrash (sg : SegSt) : Option FileSt :=
@@ -196,45 +200,77 @@ def nextStart (c : Cfg) (pend : List (Option In)) : Int × Nat :=
 
 def ntpDriftTolerance : Int := 5000000000
 
+/-- the instance terminates (error or normal close): the current segment is closed -/
+def closeInst (s : St) : St :=
+  match s.seg with
+  | none => { s with closed := true }
+  | some sg => { s with closed := true, seg := none, files := s.files ++ (segClose sg).toList }
+
+def freshSeg (number dts : Nat) (ntp : Int) : SegSt :=
+  { number := number, startDTS := dts, startNTP := ntp, endDTS := dts, flushed := [], cur := none }
+
+/-- `if t.f.currentSegment == nil { create }` -/
+def curSeg (s : St) (dts : Nat) (ntp : Int) : SegSt :=
+  match s.seg with
+  | none => freshSeg s.nextNumber dts ntp
+  | some sg => sg
+
+def curNext (s : St) : Nat :=
+  match s.seg with
+  | none => s.nextNumber + 1
+  | some _ => s.nextNumber
+
+/-- `else if (dts - startDTS) < 0 { discard }` -/
+def lateP (s : St) (dts : Nat) : Bool :=
+  match s.seg with
+  | none => false
+  | some sg => decide (dts < sg.startDTS)
+
+def driftErr (s : St) (track dts : Nat) (ntp : Int) : Bool :=
+  match s.startI.getD track none with
+  | none => false
+  | some (sd, sn) =>
+    let drift : Int := (ntp - sn) - ((dts : Int) - (sd : Int))
+    decide (drift < -ntpDriftTolerance ∨ drift > ntpDriftTolerance)
+
+def newStartI (s : St) (track dts : Nat) (ntp : Int) : List (Option (Nat × Int)) :=
+  match s.startI.getD track none with
+  | none => s.startI.set track (some (dts, ntp))
+  | some _ => s.startI
+
+/-- duration < 0: the next sample is moved onto this one -/
+def adjNext (x smp : In) : In := if x.dts < smp.dts then { x with dts := smp.dts } else x
+
+def mkWS (c : Cfg) (x smp : In) : WS :=
+  let rate := rateOf c x.track
+  let dur := ((adjNext x smp).dts - smp.dts) % u32
+  let dts := toDur smp.dts rate
+  ⟨smp.id, x.track, dur, smp.nonSync, dts, dts + toDur dur rate⟩
+
+def switchCond (c : Cfg) (hasVideo : Bool) (x nx : In) (sg : SegSt) : Bool :=
+  (!hasVideo || isVideo c x.track) && !nx.nonSync && decide (toDur nx.dts (rateOf c x.track) ≥ sg.startDTS + c.segDur)
+
 /-- formatFMP4Track.write -/
 def write (c : Cfg) (s : St) (x : In) : St :=
   if s.closed then s else
-  let rate := rateOf c x.track
-  let hasVideo := s.hasVideo || isVideo c x.track
   match s.pend.getD x.track none with
-  | none => { s with hasVideo := hasVideo, pend := s.pend.set x.track (some x) }
+  | none => { s with hasVideo := s.hasVideo || isVideo c x.track, pend := s.pend.set x.track (some x) }
   | some smp =>
-    -- duration < 0: the next sample is moved onto this one
-    let nx : In := if x.dts < smp.dts then { x with dts := smp.dts } else x
-    let dur := (nx.dts - smp.dts) % u32
-    let pend := s.pend.set x.track (some nx)
-    let dts := toDur smp.dts rate
-    let (startI, driftErr) := match s.startI.getD x.track none with
-      | none => (s.startI.set x.track (some (dts, smp.ntp)), false)
-      | some (sd, sn) =>
-        let drift : Int := (smp.ntp - sn) - ((dts : Int) - (sd : Int))
-        (s.startI, decide (drift < -ntpDriftTolerance ∨ drift > ntpDriftTolerance))
-    let s := { s with hasVideo := hasVideo, pend := pend, startI := startI }
-    if driftErr then
-      -- the instance terminates: the current segment is closed
-      match s.seg with
-      | none => { s with closed := true }
-      | some sg => { s with closed := true, seg := none, files := s.files ++ (segClose sg).toList }
-    else
-    let (sg, nextNumber, late) := match s.seg with
-      | none => (({ number := s.nextNumber, startDTS := dts, startNTP := smp.ntp, endDTS := dts, flushed := [], cur := none } : SegSt),
-                 s.nextNumber + 1, false)
-      | some sg => (sg, s.nextNumber, decide (dts < sg.startDTS))
-    if late then { s with seg := some sg, nextNumber := nextNumber } else
-    let w : WS := ⟨smp.id, x.track, dur, smp.nonSync, dts, dts + toDur dur rate⟩
-    let sg := segWrite c sg w rate
-    let nextDTS := toDur nx.dts rate
-    if (!hasVideo || isVideo c x.track) && !nx.nonSync && decide (nextDTS ≥ sg.startDTS + c.segDur) then
-      let (ntp, sd) := nextStart c pend
-      { s with seg := some { number := nextNumber, startDTS := sd, startNTP := ntp, endDTS := sd, flushed := [], cur := none },
-               nextNumber := nextNumber + 1,
-               files := s.files ++ (segClose sg).toList }
-    else { s with seg := some sg, nextNumber := nextNumber }
+    let hasVideo := s.hasVideo || isVideo c x.track
+    let nx := adjNext x smp
+    let w := mkWS c x smp
+    let s1 : St := { s with hasVideo := hasVideo, pend := s.pend.set x.track (some nx),
+                            startI := newStartI s x.track w.dts smp.ntp }
+    if driftErr s x.track w.dts smp.ntp then closeInst s1 else
+    let sg := curSeg s w.dts smp.ntp
+    let nn := curNext s
+    if lateP s w.dts then { s1 with seg := some sg, nextNumber := nn } else
+    let sg2 := segWrite c sg w (rateOf c x.track)
+    if switchCond c hasVideo x nx sg2 then
+      { s1 with seg := some (freshSeg nn (nextStart c s1.pend).2 (nextStart c s1.pend).1),
+                nextNumber := nn + 1,
+                files := s.files ++ (segClose sg2).toList }
+    else { s1 with seg := some sg2, nextNumber := nn }
 
 def run (c : Cfg) (s : St) : List In → St
   | [] => s
@@ -242,10 +278,7 @@ def run (c : Cfg) (s : St) : List In → St
 
 /-- normal termination (formatFMP4.close) -/
 def close (s : St) : St :=
-  if s.closed then s else
-  match s.seg with
-  | none => { s with closed := true }
-  | some sg => { s with closed := true, seg := none, files := s.files ++ (segClose sg).toList }
+  if s.closed then s else closeInst s
 
 /-- crash at a write boundary -/
 def crash (s : St) : List FileSt :=
